@@ -510,8 +510,28 @@ def rare_shape_program(rnd):
     """Small programs in which defeat is used in exactly one unusual place, so that
     whole-program conditions (no try/stop anywhere, no statement-level defeat call,
     no preempt ...) can hold.  -> (prog, argv)"""
-    shape = rnd.randrange(9)
+    shape = rnd.randrange(11)
     k = rnd.randrange(1, 4)
+    if shape >= 9:
+        # a value-returning you-function whose try body returns / declares / branches on the value of a
+        # defeat function: the only defeat of the body is inside the very expression that leaves it
+        kind = 'stop' if shape == 9 else rnd.choice(('undo', 'stop'))
+        risky = func('int', '!risky', [('int', 'x')], write(C('r')), ex(call('!truth_is_defeat', bin_('>', V('x'), I(2)))),
+                     ret(bin_('+', V('x'), I(1))))
+        form = rnd.randrange(3)
+        if form == 0:
+            tb = [write(C('t')), ret(call('!risky', V('x')))]
+        elif form == 1:
+            tb = [decl('int', 'v', call('!risky', V('x'))), write(C('t')), ret(bin_('*', V('v'), I(2)))]
+        else:
+            tb = [if_(bin_('>', call('!risky', V('x')), I(1)), block(write(C('t')), ret(I(7)))), write(C('n'))]
+        get = func('int', '@get', [('int', 'x')], try_(block(*tb), kind, block(write(C('s')), ret(bin_('-', I(0), I(1))))),
+                   write(C('f')), ret(I(5)))
+        main = func('empty', '@is_you', [('int', 'q')], write(call('@get', V('q'))), write(C(';')),
+                    write(call('@get', bin_('+', V('q'), I(3)))), write(C(';')), write(call('@get', I(0))))
+        fs = [risky, get, main]
+        rnd.shuffle(fs)
+        return prog([], fs), [str(rnd.randrange(0, 5))]
     if shape >= 7:
         # code-generation order: the defeat function is first reached from a try/undo (or from a
         # you-function without any try/stop) and only later called under a try/stop elsewhere
